@@ -9,6 +9,7 @@ Tie (five differential streams against the real code, all batched into one drive
   D  random symbol lists (layouts with injected duplicates / conflicts) -> `analyze_parameter_info`, then
      `AdwinProcess.get_par/set_par/get_par_multiple/set_par_multiple/start_with_params` on the real
      `Adwin_Base` driver over a fake ADwin library (typed arrays, access log, call budget)
+  F  random explicit configurations (par / fpar / par_array dicts) -> `ProgramInfo.from_config(parse_parameters=False)` + accessors
   E  generated ADbasic programs written to a TemporaryDirectory (nested includes, comments, case variations,
      cycles, missing files) -> `parse_adbasic_program` (open() budget as watchdog) + analysis + accessors
 
@@ -412,6 +413,18 @@ def reg_valid(desc, arrays) -> bool:
     return desc.data_index in arrays and 1 <= desc.elem_index <= arrays[desc.data_index][2]
 
 
+def reg_covered(desc, arrays) -> bool:
+    """Is an access to this register decided by QMI code (AdwinProcess / Adwin_Base validation) rather than by the
+    ADwin library?  True for existing registers and for those Adwin_Base refuses itself (Par/FPar outside 1..80,
+    Data outside 1..200, element index 0); False only for elements beyond the length of an existing array."""
+    n = type(desc).__name__
+    if n in ("ParDesc", "FParDesc"):
+        return True
+    if not 1 <= desc.data_index <= 200 or desc.elem_index < 1:
+        return True
+    return desc.data_index in arrays and desc.elem_index <= arrays[desc.data_index][2]
+
+
 def reg_spec(desc) -> str:
     n = type(desc).__name__
     if n == "ParDesc":
@@ -421,9 +434,14 @@ def reg_spec(desc) -> str:
     return f"D{desc.data_index}:{desc.elem_index}"
 
 
+def fold(name: str) -> str:
+    """the case folding both the parser and AdwinProcess use (since fix 5ae01c1): str.upper()"""
+    return name.upper()
+
+
 def lookup_ci(param: dict, name: str):
     for k, v in param.items():
-        if k.lower() == name.lower():
+        if fold(k) == fold(name):
             return v
     return None
 
@@ -502,8 +520,11 @@ def domain_of(op, param, arrays):
                 return None
     if bad:
         return "mgr-error"
-    if len({n.lower() for n in names}) != len(names):
+    if len({fold(n) for n in names}) != len(names):
         return "repeat"
+    regs = [show_desc(lookup_ci(param, n)) for n in names]
+    if len(set(regs)) != len(regs):
+        return "repeat"      # two names of one register: only possible in a table that is not one-to-one (configured by hand)
     return "in"
 
 
@@ -566,6 +587,31 @@ def oracle_batch_outside(proc, lib: FakeADwinLib, op, param, arrays, pre_snap, r
         lib.restore(post)
 
 
+def oracle_refusal(proc, lib: FakeADwinLib, op, param, arrays, pre_snap, raw):
+    """Ops that involve a register Adwin_Base knows not to exist (Par_0, FPar_81, Data_201[..], Data_x[0]): the name
+    denotes no hardware register, so the access must be refused (ValueError) — never redirected to another register.
+    Returns (clause, detail) or None."""
+    names = [op[1]] if op[0] in ("get", "set") else (list(op[1]) if op[0] == "mget" else [n for n, _ in op[1]])
+    descs = [lookup_ci(param, n) for n in names]
+    missing = [d for d in descs if d is not None and not reg_valid(d, arrays) and reg_covered(d, arrays)]
+    if not missing:
+        return None
+    kind = type(missing[0]).__name__
+    cls = {"ParDesc": "par", "FParDesc": "fpar", "ArrayElemDesc": "elem"}[kind]
+    if not isinstance(raw, BaseException):
+        return f"{op[0]}:access-to-nonexistent-register-not-refused:{cls}", f"{op} -> {show_desc(missing[0])}"
+    exists = {show_desc(d) for d in descs if d is not None and reg_valid(d, arrays)}
+    stray = lib.touched() - exists
+    if stray:
+        return f"{op[0]}:nonexistent-register-redirected:{cls}", f"{op} touched {sorted(stray)[:3]}"
+    if op[0] in ("get", "set"):
+        if not isinstance(raw, (ValueError, TypeError)):
+            return f"{op[0]}:nonexistent-register-wrong-exception:{cls}", repr(raw)[:120]
+        if lib.log or lib.snapshot() != pre_snap:
+            return f"{op[0]}:refused-access-left-a-trace:{cls}", str(lib.log)[:120]
+    return None
+
+
 def class_of(op, param):
     """input class used in signatures: which register kinds, and whether array elements are adjacent"""
     names = list(op[1]) if op[0] == "mget" else [n for n, _ in op[1]]
@@ -621,7 +667,7 @@ def oracle_batch(proc, lib: FakeADwinLib, op, param, arrays, pre_snap, batch_raw
             else:
                 kw = dict(op[1])
                 for n in names:
-                    v = next((kw[k] for k in kw if k.lower() == n.lower()), 0)
+                    v = next((kw[k] for k in kw if fold(k) == fold(n)), 0)
                     proc.set_par(n, v)
         except Exception as e:  # noqa
             return f"single-{op[0]}:raises-{type(e).__name__}:{cls}", repr(e)[:200]
@@ -651,6 +697,20 @@ def oracle_batch(proc, lib: FakeADwinLib, op, param, arrays, pre_snap, batch_raw
             return f"batch-{op[0]}:misses-bound-register:{cls}", f"{sorted(bound - touched)[:4]}"
         if single_touched != bound:
             return f"single-{op[0]}:touch-set-wrong:{cls}", ""
+        if op[0] == "mset" and len({fold(n) for n in names}) == len(names) and len(bound) == len(names):
+            # `set_then_get`: reading the same names back (batch) returns what was written
+            lib.restore(post)
+            keep = lib.log
+            lib.log = []
+            try:
+                back = proc.get_par_multiple(names)
+            except Exception as e:  # noqa
+                return f"batch-mset:read-back-raises-{type(e).__name__}:{cls}", repr(e)[:120]
+            finally:
+                lib.log = keep
+            for n, v in op[1]:
+                if n not in back or num(back[n]) != num(v):
+                    return f"batch-mset:read-back-differs-from-written:{cls}", f"{n}: wrote {v!r}, read {back.get(n)!r}"
         return None
     finally:
         lib.restore(post)
@@ -735,7 +795,23 @@ def gen_layout(rng, quickish=True):
         i = rng.randrange(len(defs))
         lab, val = defs[i]
         pre, _, name = lab.partition("_")
-        m = rng.randrange(17)
+        m = rng.randrange(19)
+        if m >= 17:
+            # a twin name that differs only by a non-ASCII code point with an ASCII case partner
+            # (U+212A KELVIN SIGN.lower() == 'k', 'ſ'.upper() == 'S', 'ß'.upper() == 'SS', 'ı'.upper() == 'I', 'ﬁ'.upper() == 'FI', ...)
+            twins = [("ss", "\u00df"), ("k", "\u212a"), ("s", "\u017f"), ("i", "\u0131"), ("fi", "\ufb01"), ("st", "\ufb05"), ("ff", "\ufb00")]
+            cands = [(a, b) for a, b in twins if a in name.lower()]
+            if cands:
+                a, b2 = rng.choice(cands)
+                k = name.lower().index(a)
+                twin = name[:k] + b2 + name[k + len(a):]
+            else:
+                twin = name + rng.choice(["\u212a", "\u017f", "\u00df"])
+                defs.insert(rng.randint(0, len(defs)), (pre + "_" + name + rng.choice(["k", "s", "ss", "K", "S"]),
+                                                        re.sub(r"[0-9]+(?=\]?$)", lambda mm: str(int(mm.group(0)) + 30), val)))
+            other = re.sub(r"[0-9]+(?=\]?$)", lambda mm: str(int(mm.group(0)) + rng.choice([0, 10, 11, 20])), val)
+            defs.insert(rng.randint(0, len(defs)), (pre + "_" + twin, other))
+            continue
         bank = re.fullmatch(r"(?i)(f?)(par_)(0*)([0-9]+)", val)
         if m >= 14 and bank:
             # same name re-defined in the *other register bank with the same index*: Par_n <-> FPar_n
@@ -765,7 +841,16 @@ def gen_layout(rng, quickish=True):
                    rng.choice(["17", "Par_", "Par_1x", "Data_[3]", "Data_x", "FPar1", "Par_-1", "Data_a[1", "Data_a[]", "Par_1.0",
                                "Data_a[1]]", "Data_a[1][2]", "xPar_1", "Data_" + name + "[x]"]))
         elif m == 7:    # register outside the device (parser accepts it)
-            new = (rcase(rng, "PAR_") + "far" + str(rng.randint(0, 9)), rng.choice(["Par_0", "Par_81", "FPar_0", "FPar_200", "Par_99999999999999999999"]))
+            far = rng.choice(["Par_0", "Par_80", "Par_81", "FPar_0", "FPar_80", "FPar_81", "FPar_200", "Par_99999999999999999999"])
+            arrs = [(l, v) for (l, v) in defs if l.upper().startswith("DATA_")]
+            if arrs and rng.random() < 0.5:      # element 0 of a named array / an array beyond MAX_DATA
+                al, _av = rng.choice(arrs)
+                far = "Data_" + al.partition("_")[2] + "[0]"
+            elif rng.random() < 0.3:
+                di = rng.choice([0, 200, 201, 250])
+                defs.insert(0, ("DATA_edge" + str(di), "Data_" + str(di)))
+                far = "Data_edge" + str(di) + "[" + str(rng.choice([0, 1, 2])) + "]"
+            new = (rcase(rng, "PAR_") + "far" + str(rng.randint(0, 9)), far)
         elif m == 8:    # not a PAR_/DATA_ symbol at all
             new = (rng.choice(["Pi", "PARfoo", "DATA", "PAR", "XPAR_a", "_PAR_a", "FPAR_x"]), rng.choice(["3.14159", "Par_1", "Data_1", val]))
         elif m == 9:    # empty name / underscore-rich names
@@ -791,13 +876,13 @@ def gen_value(rng, desc, arrays, wrong_ok=True):
     if t == "FParDesc":
         return ival if rng.random() < 0.4 else fval
     if arrays.get(desc.data_index, ("", True, 0))[1]:
-        return ival
+        return fval if (wrong_ok and rng.random() < 0.05) else ival      # a float for an integer array: Adwin_Base refuses it
     return ival if rng.random() < 0.4 else fval
 
 
 def gen_ops(rng, param: dict, arrays: dict, n_ops: int):
     """Accessor ops over the names whose registers exist on the fake device."""
-    names = [n for n, d in param.items() if reg_valid(d, arrays)]
+    names = [n for n, d in param.items() if reg_covered(d, arrays)]
     ops = []
     if not names:
         return [("get", "nobody")]
@@ -883,6 +968,21 @@ def run_device_ops(param_info, types: dict, ops, res: Result | None, fails: list
     proc = make_process(param_info, lib)
     regs = regs_of_interest(param_info.param, arrays)
     lines, outs = ["devinit"], ["ok"]
+    for d, (_tn, is_int, _n) in sorted(arrays.items()):
+        lines.append(f"arr {d} {'i' if is_int else 'f'}")
+        outs.append("ok")
+    # each name, spelled exactly as bound, must denote its own register (AdwinProcess resolves case-insensitively)
+    for key, want in param_info.param.items():
+        try:
+            got = proc._get_par_desc(key)
+        except Exception as e:  # noqa
+            got = e
+        if type(got) is not type(want) or got != want:
+            other = next((k for k in param_info.param if k != key and (fold(k) == fold(key) or k.lower() == key.lower())), "?")
+            cls = "ascii" if (key + other).isascii() else "non-ascii"
+            fails.append((f"resolve:own-spelling-denotes-other-register:{cls}",
+                          f"{key!a} is bound to {show_desc(want)} but resolves to {show_desc(got) if not isinstance(got, Exception) else got!r} (entry {other!a})", None))
+            break
     for op in ops:
         pre = lib.snapshot()
         lib.log = []
@@ -901,6 +1001,9 @@ def run_device_ops(param_info, types: dict, ops, res: Result | None, fails: list
         if op[0] == "startwp" and isinstance(raw, list):
             # judged as the batch write it performs (the zero-fill policy itself is not part of the property)
             oop = ("mset", raw)
+        bad = oracle_refusal(proc, lib, oop, param_info.param, arrays, pre, raw)
+        if bad:
+            fails.append((bad[0], bad[1], op))
         dom = domain_of(oop, param_info.param, arrays) if oop[0] in ("mget", "mset") else None
         if dom == "mgr-error" or (dom == "repeat" and oop[0] == "mget"):
             bad = oracle_batch_outside(proc, lib, oop, param_info.param, arrays, pre, raw, dom)
@@ -993,6 +1096,7 @@ def gen_program(rng):
     n_files = rng.choice([1, 2, 2, 3, 3, 4, 5])
     places = [os.path.join(topdir, "main.bas")]
     cand = [os.path.join(topdir, "inc", "b.inc"), os.path.join(topdir, "c.inc"), os.path.join(incdir, "sub", "d.inc"),
+            os.path.join(topdir, "inc", "c.inc"), os.path.join(incdir, "sub", "main.bas"),     # same base name as another file
             os.path.join(topdir, "..", "common", "e.inc") if topdir else os.path.join("common", "e.inc"),
             os.path.join(incdir, "sub", "deep", "f.inc"), os.path.join(topdir, ".hid", "g.inc")]
     rng.shuffle(cand)
@@ -1035,8 +1139,14 @@ def gen_program(rng):
         nl = rng.choice(["\n", "\n", "\n", "\r\n", "\r"])
         text = nl.join(lines) + rng.choice(["", nl, nl + nl])
         files[p] = text
-    return {"files": files, "top": places[0], "incdir": incdir, "relative": rng.random() < 0.5, "types": {str(k): list(v) for k, v in types.items()},
-            "cyc": cyc}
+    sc = {"files": files, "top": places[0], "incdir": incdir, "relative": rng.random() < 0.5, "types": {str(k): list(v) for k, v in types.items()},
+          "cyc": cyc}
+    r = rng.random()
+    if r < 0.3:       # the same file reached under two spellings of its path (include dir / top file not normalised)
+        sc["incdir_raw"] = rng.choice(["./" + incdir if incdir else ".", incdir + "/" if incdir else "./", (incdir + "/../" + os.path.basename(incdir)) if incdir else "./."])
+        if rng.random() < 0.5:
+            sc["top_raw"] = "./" + places[0]
+    return sc
 
 
 def fmt_include(rng, src: str, dst: str, incdir: str) -> str:
@@ -1134,6 +1244,8 @@ def run_program_scenario(sc: dict, root: Path, count=None):
     incdir = sc["incdir"] if relative else (str(cwd / sc["incdir"]) if sc["incdir"] else str(cwd))
     if sc.get("top_raw"):
         top = sc["top_raw"] if relative else str(cwd) + "/" + sc["top_raw"]
+    if sc.get("incdir_raw"):        # another spelling of the same directory ("./lib", "lib/", "lib/../lib")
+        incdir = sc["incdir_raw"] if relative else str(cwd) + "/" + sc["incdir_raw"]
     lines = ["reset"] + [f"file {hx(name_of(rel))} {hx(text)}" for rel, text in sc["files"].items()]
     outs = ["ok"] * len(lines)
     lines.append(f"parse {OPEN_BUDGET} {hx(top)} {hx(incdir)}")
@@ -1170,6 +1282,26 @@ def run_program_scenario(sc: dict, root: Path, count=None):
         count("includes_ignored", sum(1 for e in edges if not e[2]))
     info = None
     if symbols is not None:
+        # every include the parser resolved to an existing file must have been parsed (under some spelling of its path)
+        base = cwd if relative else Path("/")
+        parsed = {os.path.normpath(os.path.join(base, o)) for o in opened}
+        for (src, incp, r) in edges:
+            if r and os.path.isfile(os.path.join(base, r)) and os.path.normpath(os.path.join(base, r)) not in parsed:
+                fails.append(("parse:included-file-not-parsed", f"{incp!r} in {os.path.relpath(os.path.join(base, src), cwd)}", None))
+                break
+        # and every #Define line of a parsed file must be among the symbols
+        have = {(os.path.normpath(os.path.join(base, s.filename)), s.line_nr) for s in symbols}
+        for o in sorted(parsed):
+            try:
+                with open(o, "r") as f:
+                    src_lines = f.read().splitlines()
+            except OSError:
+                continue
+            miss = [i + 1 for i, ln in enumerate(src_lines)
+                    if re.match(r"^[ \t\f\v]*#define[ \t\f\v]+\S+[ \t\f\v]+[^\s']+[ \t\f\v]*('.*)?$", ln, re.I | re.A) and (o, i + 1) not in have]
+            if miss:
+                fails.append(("parse:define-line-of-parsed-file-missing", f"{os.path.relpath(o, cwd)}:{miss[0]}", None))
+                break
         # positions reported by the scanner must be real #Define lines of that file
         for s in symbols:
             try:
@@ -1218,6 +1350,78 @@ def run_program_scenario(sc: dict, root: Path, count=None):
                 finally:
                     os.chdir(old)
     return lines, outs, fails, info
+
+
+# ---------------------------------------------------------------------------
+# stream F: ProgramInfo.from_config with explicitly configured parameters
+# ---------------------------------------------------------------------------
+
+def gen_config(rng):
+    pool = ["foo", "bar", "baz", "gain", "k1", "elem_boo", "cnt"]
+    used_regs = set()
+
+    def nm():
+        n = rng.choice(pool)
+        return rcase(rng, n) if rng.random() < 0.35 else n
+
+    par, fpar, arr = {}, {}, {}
+    for _ in range(rng.randint(0, 4)):
+        par[nm()] = rng.choice([1, 2, 3, 80, 81, 0])
+    for _ in range(rng.randint(0, 3)):
+        fpar[nm()] = rng.choice([1, 2, 3, 80])
+    for _ in range(rng.randint(0, 4)):
+        arr[nm()] = [rng.choice([2, 3]), rng.choice([1, 2, 3, 5])]
+    if rng.random() < 0.6:      # mostly: make the three sections disjoint in exact spelling, so the table is built
+        seen = set()
+        for dct in (par, fpar, arr):
+            for k in list(dct):
+                if k in seen:
+                    del dct[k]
+                seen.add(k)
+    types = {str(d): (["long", True] if rng.random() < 0.5 else ["float64", False]) for d in range(1, 12)}
+    return {"par": par, "fpar": fpar, "par_array": arr, "types": types, "ops_seed": rng.randrange(1 << 30), "n_ops": 3}
+
+
+def run_config_scenario(sc: dict, count=None):
+    from qmi.utils.adwin_manager import CfgAdwinProgram, ProgramInfo
+    from qmi.core.exceptions import QMI_ConfigurationException
+    line = "cfg " + jc(f"{hx(n)}={i}" for n, i in sc["par"].items()) + " " + jc(f"{hx(n)}={i}" for n, i in sc["fpar"].items()) + \
+           " " + jc(f"{hx(n)}={d}:{e}" for n, (d, e) in sc["par_array"].items())
+    cfg = CfgAdwinProgram(file="prog", slot=1, trigger="Timer", priority=1, parse_parameters=False,
+                          par=dict(sc["par"]), fpar=dict(sc["fpar"]), data={}, par_array={k: tuple(v) for k, v in sc["par_array"].items()})
+    fails = []
+    lines, outs = [line], []
+    try:
+        pi = ProgramInfo.from_config(cfg, "somedir")
+    except QMI_ConfigurationException as e:
+        m = re.search(r"parameter name '(.*)' in ADwin program", str(e))
+        outs.append("exc:QMI_ConfigurationException " + (hx(m.group(1)) if m else "?" + hx(str(e))))
+        if count:
+            count("F_config_rejected")
+        return lines, outs, fails
+    except Exception as e:  # noqa
+        outs.append(exc_line(e))
+        fails.append((f"config:escaped-{type(e).__name__}", repr(e)[:160], None))
+        return lines, outs, fails
+    info = pi.param_info
+    outs.append("ok par=" + jc(sorted(f"{hx(k)}:{show_desc(v)}" for k, v in info.param.items())))
+    if count:
+        count("F_config_accepted")
+    # what the configuration says must be in the table, exactly
+    want = {**{n: f"P{i}" for n, i in sc["par"].items()}, **{n: f"F{i}" for n, i in sc["fpar"].items()},
+            **{n: f"D{d}[{e}]" for n, (d, e) in sc["par_array"].items()}}
+    if {k: show_desc(v) for k, v in info.param.items()} != want:
+        fails.append(("config:table-differs-from-configuration", str(want)[:160], None))
+    types = {int(k): tuple(v) for k, v in sc["types"].items()}
+    ops = sc.get("ops")
+    if ops is None:
+        import random
+        ops = gen_ops(random.Random(sc["ops_seed"]), info.param, arrays_for(info.param, types), sc.get("n_ops", 3))
+        sc["ops"] = ops
+    l2, o2 = run_device_ops(info, types, [_norm_op(o) for o in ops], None, fails, sc, count)
+    # tables configured by hand: name the class apart
+    fails = [((sig + ":configured-table") if sig.startswith("resolve:") else sig, d, x) for (sig, d, x) in fails]
+    return lines + l2, outs + o2, fails
 
 
 # ---------------------------------------------------------------------------
@@ -1307,6 +1511,19 @@ def corpus_programs_2():
            "top": "main.bas", "incdir": "", "relative": True, "types": t, "cyc": None, "n_ops": 0}
 
 
+def corpus_programs_3():
+    t = {str(d): ["long", True] for d in range(1, 12)}
+    # one file reached under two spellings of its path: "./prog/sub/d.inc" (include dir) and "prog/sub/d.inc" (normalised)
+    yield {"files": {"prog/main.bas": "#Include sub\\d.inc\n#Include .\\sub\\d.inc\n#Include .\\main.bas\n#Define PAR_a Par_1\n",
+                     "prog/sub/d.inc": "#Define PAR_b Par_2\n#Include ..\\main.bas\n"},
+           "top": "prog/main.bas", "top_raw": "./prog/main.bas", "incdir": "prog", "incdir_raw": "./prog", "relative": True,
+           "types": t, "cyc": "back-edge", "n_ops": 2, "ops_seed": 7}
+    yield {"files": {"prog/main.bas": "#Include sub\\d.inc\n#Include .\\sub\\d.inc\n#Define PAR_a Par_1\n",
+                     "prog/sub/d.inc": "#Define PAR_b Par_2\n"},
+           "top": "prog/main.bas", "incdir": "prog", "incdir_raw": "prog/../prog/", "relative": False,
+           "types": t, "cyc": None, "n_ops": 2, "ops_seed": 8}
+
+
 def corpus_layouts():
     t = {str(d): (["long", True] if d % 2 == 0 else ["float64", False]) for d in range(1, 12)}
     big = "1" * 4301
@@ -1314,6 +1531,30 @@ def corpus_layouts():
     yield {"defs": [["DATA_big", "Data_" + "0" * 4300 + "7"]], "types": t, "n_ops": 0, "ops_seed": 0}
     yield {"defs": [["DATA_a", "Data_3"], ["PAR_e", "Data_a[" + big + "]"]], "types": t, "n_ops": 0, "ops_seed": 0}
     yield {"defs": [["DATA_ok", "Data_" + "0" * 4299 + "7"], ["PAR_z", "Par_" + "0" * 4299 + "5"]], "types": t, "n_ops": 2, "ops_seed": 0}
+    # the limits Adwin_Base enforces: Par/FPar 1..80, Data 1..200, element >= 1
+    edge = [["DATA_hi", "Data_200"], ["DATA_over", "Data_201"], ["DATA_zero", "Data_0"], ["PAR_p1", "Par_1"], ["PAR_p80", "Par_80"],
+            ["PAR_p81", "Par_81"], ["PAR_p0", "Par_0"], ["PAR_f80", "FPar_80"], ["PAR_f81", "FPar_81"], ["PAR_f0", "FPar_0"],
+            ["PAR_h0", "Data_hi[0]"], ["PAR_h1", "Data_hi[1]"], ["PAR_h2", "Data_hi[2]"], ["PAR_h4", "Data_hi[4]"],
+            ["PAR_o1", "Data_over[1]"], ["PAR_z1", "Data_zero[1]"]]
+    tt = dict(t); tt["200"] = ["long", True]
+    yield {"defs": edge, "types": tt, "ops": [
+        ["get", "p80"], ["get", "p81"], ["get", "p0"], ["get", "f80"], ["get", "f81"], ["get", "f0"], ["get", "h0"], ["get", "h1"],
+        ["get", "o1"], ["get", "z1"], ["set", "p81", 1], ["set", "p81", 1.5], ["set", "f0", 2.5], ["set", "h0", 3], ["set", "o1", 3],
+        ["set", "h1", 2.5], ["set", "h1", 7],
+        ["mget", ["h1", "h2", "p80", "f80"]], ["mget", ["h0", "h1"]], ["mget", ["h1", "h0", "p1"]], ["mget", ["p1", "p81", "h1"]],
+        ["mget", ["o1", "h1"]], ["mget", ["h1", "o1"]], ["mget", ["z1"]],
+        ["mset", [["h1", 1], ["h2", 2], ["p80", 80], ["f80", 0.5]]], ["mset", [["h0", 1], ["h1", 2]]], ["mset", [["p1", 5], ["h1", 6], ["p0", 7]]],
+        ["mset", [["h1", 1], ["h2", 2.5]]], ["mset", [["h4", 2.5], ["h1", 9]]], ["mset", [["h1", 4], ["o1", 5]]], ["mset", [["f81", 1], ["h2", 8]]],
+        ["mget", ["h1", "h2", "h4", "p1", "p80", "f80"]]]}
+    tt2 = dict(t); tt2["200"] = ["float64", False]
+    yield {"defs": edge, "types": tt2, "ops": [["mset", [["h1", 1], ["h2", 2.5], ["h4", -3]]], ["mget", ["h4", "h2", "h1"]], ["mset", [["h2", 1], ["h0", 2.5]]]]}
+    # non-ASCII code points with an ASCII case partner: the parser folds with upper(), the manager with lower()
+    yield {"defs": [["PAR_\u212a", "Par_1"], ["PAR_k", "Par_2"]], "types": t,
+           "ops": [["get", "k"], ["get", "\u212a"], ["mget", ["k"]], ["set", "k", 5], ["mset", [["K", 7]]]]}
+    yield {"defs": [["PAR_gain\u00df", "Par_1"], ["PAR_gainSS", "Par_2"]], "types": t, "n_ops": 0, "ops_seed": 0}
+    yield {"defs": [["PAR_\u017fet", "Par_1"], ["PAR_set", "FPar_2"], ["DATA_\ufb01t", "Data_2"], ["PAR_e", "Data_FIT[2]"]], "types": t, "n_ops": 0, "ops_seed": 0}
+    yield {"defs": [["DATA_\u0131dx", "Data_2"], ["DATA_Idx", "Data_3"]], "types": t, "n_ops": 0, "ops_seed": 0}
+    yield {"defs": [["PAR_\u017f", "Par_1"], ["PAR_x\ufb05", "Par_2"], ["PAR_\u00df\u0131", "FPar_3"]], "types": t, "n_ops": 5, "ops_seed": 6}
     # one name in both register banks with the same index (ParDesc(3) == FParDesc(3) as tuples): must be rejected
     yield {"defs": [["PAR_gain", "Par_3"], ["PAR_other", "Par_1"], ["PAR_gain", "FPar_3"]], "types": t, "n_ops": 0, "ops_seed": 0}
     yield {"defs": [["PAR_offset", "FPar_12"], ["PAR_other", "Par_1"], ["par_offset", "PAR_012"]], "types": t, "n_ops": 0, "ops_seed": 0}
@@ -1417,16 +1658,19 @@ class C20(Prop):
     driver = "drv_c20"
     modelled_not_verified = [
         "CPython `re` semantics of the six patterns (re_define, re_include, Par_/FPar_/Data_ index, Data_x[i]) — written out as "
-        "functions in the model and differentially checked here; code points restricted to ASCII plus the non-ASCII line separators "
-        "(str.upper()/lower() on other code points is not modelled)",
+        "functions in the model and differentially checked here; str.upper()/lower() are modelled on ASCII plus the eleven non-ASCII "
+        "code points that have an ASCII case partner (ß ı ſ K-sign, ligatures ﬀ..ﬆ) and differentially checked; other non-ASCII letters "
+        "(é/É …) are outside the modelled alphabet",
         "text-mode universal newlines, str.splitlines, posixpath.join/dirname/normpath (os.path on this platform), int() with the "
         "4300-digit limit (ValueError -> ParseException in _parse_index) — written out in the model, differentially checked",
         "the file system: a finite map from normalised path to text; open() resolution approximated by normpath (no symlinks); every "
         "OSError subclass is one error value",
-        "the ADwin itself: a total register file (Par, FPar, Data × element); the harness uses the real Adwin_Base driver over a fake "
-        "ADwin library with 80 Par / 80 FPar / typed Data arrays. Adwin_Base's own argument validation (index ranges, integer dtype "
-        "check), 32-bit wrap-around and float32 rounding are outside the model; generated layouts/ops stay on registers that exist",
-        "numpy dtype unification in `np.array(values)` for a merged range (model: values are stored as given; harness compares numerically)",
+        "the ADwin library under Adwin_Base: a total register file (Par, FPar, Data × element) that stores values as given; the harness "
+        "uses the real Adwin_Base driver over a fake ADwin library with 80 Par / 80 FPar / typed Data arrays. Adwin_Base's argument "
+        "validation (index ranges, first element >= 1, integer dtype of a merged range) IS in the model and diffed; array lengths, "
+        "32-bit wrap-around and float32 rounding are the library's (ops stay within array lengths and int32)",
+        "numpy dtype unification in `np.array(values)`: modelled as 'float dtype iff some value is a float'; int->float64 conversion on "
+        "store is compared numerically",
         "repr(param_desc) is injective on descriptors (model keys ref_to_name by the descriptor itself)",
     ]
 
@@ -1471,7 +1715,7 @@ class C20(Prop):
         with tempfile.TemporaryDirectory(prefix="c20_") as tmp:
             tmp = Path(os.path.realpath(tmp))
             # --- fixed corpus
-            for i, sc in enumerate(list(corpus_programs()) + list(corpus_programs_2())):
+            for i, sc in enumerate(list(corpus_programs()) + list(corpus_programs_2()) + list(corpus_programs_3())):
                 sc = dict(sc)
                 lines, outs, fails, _ = run_program_scenario(sc, tmp / f"c{i}", res.count)
                 add("E", {"kind": "program", "scenario": sc}, lines, outs)
@@ -1519,6 +1763,14 @@ class C20(Prop):
                 c = oracle_ranges(seq, out)
                 if c and not any(f.signature == c for f in res.failures):
                     res.failures.append(Failure(c, f"_find_sequential_ranges({seq}) = {out}: {c}", {"kind": "ranges", "seq": seq, "clause": c}))
+            # --- F: configured tables
+            for i in range(ctx.scale(1500, 15000)):
+                sc = gen_config(rng)
+                lines, outs, fails = run_config_scenario(sc, res.count)
+                add("F", {"kind": "config", "scenario": sc}, lines, outs)
+                res.note_case(("F", repr(sc["par"]), repr(sc["fpar"]), repr(sc["par_array"]), repr(sc.get("ops"))), nontrivial=True)
+                res.count("F_configs")
+                report(fails, sc, "config")
             # --- D: layouts
             nD = ctx.scale(8000, 80000)
             for i in range(nD):
@@ -1607,6 +1859,11 @@ class C20(Prop):
             for (sig, detail, _x) in fails:
                 if not sig.startswith("harness:"):
                     return Failure(sig, f"{sig}: {detail}", {"kind": "program", "scenario": sc, "clause": sig})
+        elif kind == "config":
+            sc = dict(c["scenario"])
+            _l, _o, fails = run_config_scenario(sc)
+            for (sig, detail, _x) in fails:
+                return Failure(sig, f"{sig}: {detail}", {"kind": "config", "scenario": sc, "clause": sig})
         elif kind == "ranges":
             from qmi.utils.adwin_manager import AdwinProcess
             out = AdwinProcess._find_sequential_ranges(list(c["seq"]))
@@ -1686,6 +1943,8 @@ class C20(Prop):
             sc = dict(rp["scenario"])
             if rp["kind"] == "layout":
                 _l, _o, fails, _ = run_layout_scenario(sc)
+            elif rp["kind"] == "config":
+                _l, _o, fails = run_config_scenario(sc)
             else:
                 _l, _o, fails, _ = run_program_scenario(sc, tmp / "r")
             want = rp.get("clause")
